@@ -300,7 +300,7 @@ func (mm *MetricMap) receiveGauge(m *Metric, tagsKey string) {
 	if ok {
 		g, ok := v[tagsKey]
 		if ok {
-			if m.Timestamp > g.Timestamp {
+			if m.Timestamp >= g.Timestamp {
 				g.Value = m.Value
 				g.Timestamp = m.Timestamp
 			}
